@@ -90,6 +90,22 @@ class Function:
                 return p
         return None
 
+    def constval(self, i):
+        """integer constant value of an expression (outermost folded value
+        wins, so casts of literals are honoured), or None"""
+        while True:
+            nd = self.nodes[i]
+            if "cv" in nd and nd["k"] != "DeclRef" and isinstance(nd["cv"], int):
+                return nd["cv"]
+            if nd["k"] in ("Int", "Char"):
+                return nd["v"]
+            if nd["k"] == "DeclRef" and nd.get("ref") == "enum" and "cv" in nd:
+                return nd["cv"]
+            if nd["k"] in ("Paren", "ICast", "Cast"):
+                i = nd["ch"][0]
+                continue
+            return None
+
     def line(self, i):
         nd = self.nodes[i]
         while "l" not in nd:
